@@ -34,12 +34,11 @@ SJson(v) == [n |-> IF v.neg THEN 1 ELSE 0, l |-> v.mag]
 Mat(f) == f @@ << >>
 
 ---------------------------------------------------------------------------
-(* boundary-structured integer amplitudes of a b-bit format, sorted *)
+(* boundary-structured integer amplitudes of a b-bit format *)
 IntWidths == {8, 16, 24, 32, 48, 64}
 KSet(b) == IF Thorough THEN 1..(b - 2)
            ELSE {k \in 1..(b - 2) : k <= 2 \/ k >= b - 3 \/ k % 8 \in {0, 7}}
-\* ...010101 (n bits).  Not written recursively: a RECURSIVE operator in this module would stop TLC from
-\* caching every constant definition that depends on it (measured: the tables below were re-sorted at each use)
+\* ...010101 (n bits): (2^n - 1) / 3 for even n, (2^(n+1) - 1) / 3 for odd n
 AltB(n) == SMk(FALSE, BDivSmall(BSub(BPow2(n + (n % 2)), << 1 >>), 3))
 AmpSet(b) ==
   LET h == SPow2(b - 1)
@@ -94,7 +93,8 @@ FFSeq == IF "C02" \in Props THEN Mat([name \in FloatFormats |-> SetToSeq(FFSet(n
 
 ---------------------------------------------------------------------------
 (* boundary values of the custom types *)
-TKSet(t) == IF Thorough THEN 1..(TBits(t) - 1)
+TKSet(t) == IF Thorough THEN {k \in 1..(TBits(t) - 1) : TBits(t) = 11 \/ k <= 3 \/ k >= TBits(t) - 4 \/ k % 4 = 0
+                                                          \/ k \in {TBits(t) \div 2 - 1, TBits(t) \div 2, TBits(t) \div 2 + 1}}
             ELSE {k \in 1..(TBits(t) - 1) : k <= 1 \/ k >= TBits(t) - 2 \/ k \in {TBits(t) \div 2, (TBits(t) + 1) \div 2}}
 TValSet(t) ==
   LET lo == TMin(t)  hi == TMax(t)  eq == TEquil(t)
@@ -137,7 +137,6 @@ FromAmpK(b, sg, a) == IF sg THEN a ELSE a + HalfK(b)
 ConvK(sb, ss, db, ds, v) ==     \* amplitude * 2^(db - sb), rounded toward negative infinity (TLA+ \div floors)
   LET a == AmpK(sb, ss, v) IN
   FromAmpK(db, ds, IF db >= sb THEN a * Pow2Small(db - sb) ELSE a \div Pow2Small(sb - db))
-FmtBits(f) == Bits(f)
 NamedSmall == {f \in IntFormats : Bits(f) <= 24}
 Stride16 == IF Thorough THEN 5 ELSE 97
 
